@@ -95,6 +95,9 @@ func (ft *FuncTr) call(st *State, at *Term, in ssa.Instruction, c *ssa.CallCommo
 		cname = b.Name()
 	}
 	ft.curCallNth = ft.callOrdinal(in, cname)
+	if _, isB := c.Value.(*ssa.Builtin); !isB || cname == "append" || cname == "copy" {
+		ft.leak()
+	}
 	if cname != "" && os.Getenv("GOVC_CALLS") != "" {
 		fmt.Fprintf(os.Stderr, "call %s#%d at %s\n", lastName(cname), ft.curCallNth, ft.posStr(in.Pos()))
 	}
